@@ -619,9 +619,9 @@ fn directed(cfg: &Cfg, grp: &str, case: u64, rep: &mut Report) {
 pub fn run(cfg: &Cfg, rep: &mut Report) -> PropMeta {
     run_cases(cfg, "directed", 5, rep, |case, _rng, rep| directed(cfg, "directed", case, rep));
     // long chains (1..20 primes in total => 1..19 at the data levels), N = 4..64
-    run_cases(cfg, "long_chains", cfg.n(420, 5000) as u64, rep, |case, rng, rep| context_case(cfg, "long_chains", case, rng, rep, &[4, 8, 16, 32, 64], 20, cfg.pick(30, 40)));
+    run_cases(cfg, "long_chains", cfg.n(800, 5000) as u64, rep, |case, rng, rep| context_case(cfg, "long_chains", case, rng, rep, &[4, 8, 16, 32, 64], 20, cfg.pick(30, 40)));
     // short chains, larger degrees
-    run_cases(cfg, "short_chains", cfg.n(96, 500) as u64, rep, |case, rng, rep| context_case(cfg, "short_chains", case, rng, rep, cfg.pick(&[128, 256, 512, 1024][..], &[128, 256, 512, 1024, 2048][..]), 4, cfg.pick(20, 30)));
+    run_cases(cfg, "short_chains", cfg.n(160, 500) as u64, rep, |case, rng, rep| context_case(cfg, "short_chains", case, rng, rep, cfg.pick(&[128, 256, 512, 1024][..], &[128, 256, 512, 1024, 2048][..]), 4, cfg.pick(20, 30)));
     if !cfg.quick() {
         run_cases(cfg, "large_degree", cfg.n(1, 24) as u64, rep, |case, rng, rep| context_case(cfg, "large_degree", case, rng, rep, &[4096, 8192], 3, 3));
     }
